@@ -110,3 +110,57 @@ theorem portable_rows_partial :
 theorem portable_rows_refuted : (codecFacts.any fun r => !portableLaw r) = true := by decide +kernel
 
 end I18n.Charset.Tables
+
+/-! ## which bytes the ASCII-compatibility test looks at, and which codecs can tell -/
+
+namespace I18n.Charset.Tables
+open I18n.Charset I18n.Generated.Charset
+open I18n.Spec.Charset (asciiRepertoire)
+
+set_option maxRecDepth 100000
+
+def nm (s : String) : Name := s.toList.map Char.toNat
+
+/-- the ASCII bytes the tool does NOT test -/
+def untestedBytes : List Nat := [1, 2, 3, 5, 6, 14, 15, 16, 17, 18, 19, 20, 21, 22, 23, 24, 25, 26, 28, 29, 30, 31, 127]
+
+theorem untested_pin : ((List.range 128).filter fun b => !interestingBytes.contains b) = untestedBytes := by decide +kernel
+
+/-- the codecs whose verdict changes when ONE tested byte is no longer tested (narrowing), and that byte -/
+def expectedDrop (codec : Option Name) : List Nat :=
+  if codec = some (nm "hz") then [0x7E] else if codec = some (nm "cp864") then [0x25] else if codec = some (nm "utf-7") then [0x2B] else []
+
+/-- the codecs whose verdict changes when ONE untested byte is tested as well (widening), and those bytes -/
+def expectedAdd (codec : Option Name) : List Nat :=
+  if codec = some (nm "viscii") then [0x02, 0x05, 0x06, 0x14, 0x19, 0x1E] else if codec = some (nm "iso2022_kr") then [0x0E, 0x0F] else []
+
+def sensLaw (r : Row) : Bool := r.dropSens == expectedDrop r.codec && r.addSens == expectedAdd r.codec
+/-- testing all 128 bytes is the stronger test; the two readings differ exactly on the rows some single added byte flips; a
+    narrowing can only turn a "no" into a "yes" -/
+def readingsLaw (r : Row) : Bool :=
+  (!r.fullAsciiId || r.tAscii) && ((r.tAscii && !r.fullAsciiId) == !r.addSens.isEmpty) && (r.dropSens.isEmpty || !r.tAscii)
+    && r.dropSens.all (fun b => interestingBytes.contains b) && r.addSens.all (fun b => untestedBytes.contains b)
+
+theorem sens_rows : (codecFactsChunks.all fun ch => ch.all sensLaw) = true := by decide +kernel
+theorem readings_rows : (codecFactsChunks.all fun ch => ch.all readingsLaw) = true := by decide +kernel
+
+/-- for a byte-wise decoder `f` the verdict looks at `f` on the tested bytes only -/
+theorem isAsciiCompatible_bytewise (f : Nat → Nat) (mo : Bool) :
+    isAsciiCompatible interestingStr (.text (interestingBytes.map f)) mo = .ok (decide (∀ b ∈ interestingBytes, f b = b)) := by
+  have hpin : interestingStr = interestingBytes := by rw [repertoire_pin.1, repertoire_pin.2]
+  simp only [isAsciiCompatible, hpin]
+  congr 1
+  have : ∀ l : List Nat, (l.map f == l) = decide (∀ b ∈ l, f b = b) := by
+    intro l
+    induction l with
+    | nil => simp
+    | cons x xs ih =>
+      have e : (List.map f (x :: xs) == x :: xs) = ((f x == x) && (List.map f xs == xs)) := by
+        simp only [List.map_cons]
+        rfl
+      rw [e, ih]
+      simp only [List.mem_cons, forall_eq_or_imp]
+      by_cases h1 : f x = x <;> by_cases h2 : (∀ b ∈ xs, f b = b) <;> simp [h1, h2]
+  exact this interestingBytes
+
+end I18n.Charset.Tables
